@@ -74,7 +74,9 @@ def build(recipe):
         t = {"Shape": [int(s) for s in shape], "Type": TTYPE[dtype], "Buffer": add_buffer(data) if data is not None else 0,
              "Name": name}
         if q is not None:
-            sc, zp = q
+            if len(q) == 3:  # (scales, zero points, quantised dimension): per-axis quantised tensor
+                qdim = q[2]
+            sc, zp = q[0], q[1]
             sc = np.atleast_1d(np.asarray(sc, dtype=np.float32))
             zp = np.atleast_1d(np.asarray(zp, dtype=np.int64))
             t["Quantization"] = {"Scale": sc, "ZeroPoint": zp, "QuantizedDimension": int(qdim)}
@@ -858,6 +860,15 @@ def gen_corner_recipe(r):
         inputs.append(dict(shape=shape, dtype=dtype, q=(q() if qq == "auto" else qq)))
         return len(inputs) - 1
 
+    def pa(shape, dtype=dt):
+        """per-axis quantisation parameters (scale / zero point vectors along one axis) for a tensor of this shape"""
+        if not shape or dtype not in DTRANGE:
+            return list(_rand_q(r, "int8"))
+        ax = r.randrange(len(shape)) if r.random() < 0.3 else len(shape) - 1
+        n = max(1, shape[ax])
+        base = _rand_q(r, dtype)
+        return [[f32(base[0] * (1 + 0.1 * (i % 7))) for i in range(n)], [int(base[1])] * n if r.random() < 0.7 else [int(base[1]) + (i % 3) for i in range(n)], ax]
+
     if kind == "ew":
         a = _corner_shape(r)
         mode = r.random()
@@ -867,12 +878,16 @@ def gen_corner_recipe(r):
             b = [1 if r.random() < 0.5 else s_ for s_ in a][r.randrange(len(a) + 1):] if a else []
         else:
             b = [1] * r.randint(0, len(a))
-        x0 = inp(a)
+        pax = r.choice(["in0", "in1", "in1", "out"]) if (dt in DTRANGE and r.random() < 0.2) else None
+        x0 = inp(a, qq=pa(a)) if pax == "in0" else inp(a)
         if r.random() < 0.5:
-            x1 = inp(b)
-            layers.append(dict(op=r.choice(["ADD", "SUB", "MUL", "MINIMUM", "MAXIMUM"]), act=r.choice(["NONE", "RELU", "RELU6"]), q=q(), **{"in": [x0, x1]}))
+            x1 = inp(b, qq=pa(b)) if pax == "in1" else inp(b)
+            layers.append(dict(op=r.choice(["ADD", "SUB", "MUL", "MINIMUM", "MAXIMUM"]), act=r.choice(["NONE", "RELU", "RELU6"]),
+                               q=pa(list(np.broadcast_shapes(tuple(a), tuple(b)))) if pax == "out" else q(), **{"in": [x0, x1]}))
         elif dt != "float32" and dt != "int32":
-            layers.append(dict(op=r.choice(["ADD", "SUB", "MUL", "MINIMUM", "MAXIMUM"]), act="NONE", q=q(), const=dict(shape=b, q=q() or [0.1, 0]),
+            layers.append(dict(op=r.choice(["ADD", "SUB", "MUL", "MINIMUM", "MAXIMUM"]), act="NONE",
+                               q=pa(list(np.broadcast_shapes(tuple(a), tuple(b)))) if pax == "out" else q(),
+                               const=dict(shape=b, q=pa(b) if pax == "in1" else (q() or [0.1, 0])),
                                swap=r.random() < 0.5, **{"in": [x0]}))
         else:
             layers.append(dict(op="ADD", act="NONE", q=q(), **{"in": [x0, x0]}))
@@ -882,6 +897,11 @@ def gen_corner_recipe(r):
         if op == "PRELU" and (dt not in DTRANGE or len(inputs[0]["shape"]) < 1):
             op = "RELU"
         L = dict(op=op, q=q(), **{"in": [x0]})
+        if dt in DTRANGE and r.random() < 0.1:
+            if r.random() < 0.5:
+                inputs[x0]["q"] = pa(inputs[x0]["shape"])
+            else:
+                L["q"] = pa(inputs[x0]["shape"])
         if op == "LEAKY_RELU":
             L["alpha"] = r.choice([0.1, 0.0, 1.0, -1.0, 3.5])
         if op == "QUANTIZE":
